@@ -771,6 +771,8 @@ func main() {
 		return j
 	}
 	var ccWG sync.WaitGroup
+	var fmu sync.Mutex
+	var failed []batch
 	ccWG.Add(1)
 	ccPool := mc.NewPool(nw, nil)
 	go func() {
@@ -780,10 +782,10 @@ func main() {
 			b := batches[res.Index]
 			var cr ccResult
 			if res.Status != "ok" {
-				// wat2c itself took the worker down or never returned
-				for _, i := range b.units {
-					cres[b.cc][i] = cUnitResult{Status: "worker-" + res.Status, Msg: clip(res.Stderr, 300)}
-				}
+				// wat2c itself took the worker down or never returned: every unit of the batch is re-run alone below
+				fmu.Lock()
+				failed = append(failed, b)
+				fmu.Unlock()
 				return
 			}
 			if err := json.Unmarshal(res.Out, &cr); err != nil || cr.Err != "" {
@@ -794,6 +796,28 @@ func main() {
 				cres[b.cc][i] = cr.Units[k]
 			}
 		})
+		for _, b := range failed {
+			for _, i := range b.units {
+				// a crash / hang is believed only if the unit takes the worker down 5 times alone
+				var last mc.Result
+				ok := false
+				for try := 0; try < 5 && !ok; try++ {
+					solo := mc.NewPool(1, nil)
+					solo.Run(1, func(int) interface{} { return mkCC(batch{b.cc, []int{i}}) }, 60*time.Minute, func(res mc.Result) { last = res })
+					solo.Close()
+					var cr ccResult
+					if last.Status == "ok" && json.Unmarshal(last.Out, &cr) == nil && cr.Err == "" && len(cr.Units) == 1 {
+						cres[b.cc][i] = cr.Units[0]
+						ok = true
+					} else if last.Status == "ok" {
+						break
+					}
+				}
+				if !ok {
+					cres[b.cc][i] = cUnitResult{Status: "worker-" + last.Status, Msg: clip(last.Stderr, 300)}
+				}
+			}
+		}
 	}()
 
 	// ---- oracle side: V8 + both wazero configurations (units wat2c is expected to refuse are skipped)
@@ -941,7 +965,7 @@ func main() {
 				addCand(cand{i * 1000000, fmt.Sprintf("%s|wasm=valid-module|c=%s%s", famKey, cr.Status, tag), fmt.Sprintf("%s: the generated C does not build with %s: %s", u.Name, cc, cr.Msg),
 					map[string]interface{}{"unit": u.Name, "cc": cc, "error": cr.Msg, "wat": clip(u.Text, 3000), "c": cr.CCode}})
 				continue
-			case "worker-crash", "worker-hang":
+			case "worker-crash", "worker-hang", "worker-ok":
 				addCand(cand{i * 1000000, fmt.Sprintf("%s|wat2c-%s%s", famKey, cr.Status, tag), fmt.Sprintf("%s: the batch containing this unit took the translating worker down (%s): %s", u.Name, cr.Status, cr.Msg),
 					map[string]interface{}{"unit": u.Name, "stderr": cr.Msg}})
 				continue
